@@ -60,6 +60,7 @@ Definition rows_of (x : fixture) : option (list srow) :=
 Definition run_fixture (x : fixture) : N * bytes :=
   report_main (x_mode x) (cfg_of x) (x_host x) (x_step x) (files_of x).
 
-(* duration_total -s step.csv under _MODE = mode: None when the file does not parse *)
-Definition sh_total_fixture (x : fixture) : option Z :=
-  match rows_of x with Some rows => Some (sh_total (x_mode x) rows) | None => None end.
+(* duration_total -s step.csv under _MODE = mode; when robsd-step cannot read the
+   file the first step_eval fails and the total is 0 *)
+Definition sh_total_fixture (x : fixture) : Z :=
+  match rows_of x with Some rows => sh_total (x_mode x) rows | None => 0%Z end.
